@@ -158,6 +158,8 @@ Fixpoint ready_expr (e : expr) {struct e} : bool :=
   | ECall f args => ready_expr f && forallb ready_expr args
   | EBlock items => ready_items_f ready_fdef ready_expr items
   | EFor i c s b => ready_expr i && ready_expr c && ready_expr s && ready_expr b
+  | EForInRange _ a b body => ready_expr a && ready_expr b && ready_expr body
+  | EForInArr _ a body => ready_expr a && ready_expr body
   | ELambda fd => ready_fdef fd
   | EArrLit es _ => forallb ready_expr es
   | ERecNew _ es => forallb ready_expr es
@@ -707,6 +709,9 @@ Proof.
     destruct (IH _ _ _ D H') as [G2' [D' H2]]. exists G2'. simpl. rewrite E'. simpl. auto.
 Qed.
 
+Lemma eqv_cons : forall s G G', eqv G G' -> eqv (s :: G) (s :: G').
+Proof. intros s G G' H. apply eqv1_eqv, eqv_push, H. Qed.
+
 Section Eqv.
 Variable R : list recdecl.
 
@@ -719,7 +724,7 @@ Theorem typing_eqv :
   (forall G ret call, CallOk R G ret call -> forall G', eqv G G' -> CallOk R G' ret call) /\
   (forall G ret cs, CatchesOk R G ret cs -> forall G', eqv G G' -> CatchesOk R G' ret cs).
 Proof.
-  apply typing_mutind; intros; try (econstructor; eauto using eqv_push; fail).
+  apply typing_mutind; intros; try (econstructor; eauto using eqv_push, eqv_cons; fail).
   - (* var *) constructor. rewrite <- H0. exact H.
   - (* let *)
     match goal with D : declare _ _ _ = Ok _, E : eqv1 _ _ |- _ =>
